@@ -127,7 +127,6 @@ func modifyUsingTemp(c1, c2, c3 *sqlcheck.Change) (from, to *schema.Table, _ boo
 	// New table layout.
 	add := c1.Changes[0].(*schema.AddTable)
 	prefixed, name := add.T.Name, strings.TrimPrefix(add.T.Name, "new_")
-	add.T.Name = name
 	// Right after "INSERT", the "DROP T" is expected.
 	if !isDropT(c2.Changes[0], name) {
 		return nil, nil, false
@@ -135,10 +134,12 @@ func modifyUsingTemp(c1, c2, c3 *sqlcheck.Change) (from, to *schema.Table, _ boo
 	drop := c2.Changes[0].(*schema.DropTable)
 	// "RENAME T" is expected after "DROP T".
 	if len(c3.Changes) == 1 && isRenameT(c3.Changes[0], prefixed, name) {
+		add.T.Name = name
 		return drop.T, add.T, true
 	}
 	// In case no parser is attached, "RENAME T" will be presented as "DROP T" and "ADD T".
 	if len(c3.Changes) == 2 && isDropT(c3.Changes[0], prefixed) && isAddT(c3.Changes[1], name) {
+		add.T.Name = name
 		return drop.T, add.T, true
 	}
 	return nil, nil, false
